@@ -71,6 +71,21 @@ def constructs(seq, depth=0, acc=None):
     return acc
 
 
+def map_names(seq, mapping):
+    """the same definition with its event names replaced"""
+    out = []
+    for it in seq:
+        if it[0] == 'ev':
+            out.append(('ev', mapping.get(it[1], it[1])))
+        elif it[0] == 'loop':
+            out.append(('loop', map_names(it[1], mapping)))
+        elif it[0] in ('and', 'or', 'xor'):
+            out.append((it[0], tuple(map_names(b, mapping) for b in it[1])))
+        else:
+            out.append(it)
+    return tuple(out)
+
+
 def depth_has_loop(seq):
     for it in seq:
         if it[0] == 'loop':
